@@ -42,7 +42,7 @@ def setup(ctx):
     for cls, names in ((Residue, ('move', 'move_to', 'rotate', 'copy')), (AtomGro, ('copy',)),
                        (Molecule, ('copy', 'deep_copy', '__init__', '__getitem__', '__iter__'))):
         for name in names:
-            _cov.watch(cls.__dict__[name], f'{cls.__name__}.{name}')
+            _cov.watch_attr(cls, name, f'{cls.__name__}.{name}')
     _cov.watch(Residue.atoms.fget, 'Residue.atoms')
     _cov.watch(Molecule.atoms.fget, 'Molecule.atoms')
     _cov.start()
